@@ -387,61 +387,79 @@ def check(ctx):
               "collect_referenced_types_from_structure matches every TypeStructure variant without a wildcard arm and passes every bound "
               "sub-structure to a recursive call (Map: key and value; Tuple: every element)",
               "an arm that does not recurse (or recurses into the value only) loses the types nested at that position")
-    fn = S.fn("TypeCollector", "collect_referenced_types_from_structure")
-    variants = [v["name"] for v in S.enums.get("TypeStructure", {}).get("variants", [])]
-    if fn is None or not variants:
+    variants = S.enums.get("TypeStructure", {}).get("variants", [])
+    mfc = P.find("TypeCollector::collect_referenced_types_from_structure")
+    if not mfc or not variants:
         r2.bad(V(r2.id, "<anchor>", "missing:collector-or-enum", "anchor not found"))
     else:
-        m = [e for e in walk_block(fn.body) if e.get("k") == "match"]
-        if len(m) != 1:
-            r2.bad(V(r2.id, "TypeCollector::collect_referenced_types_from_structure", "match-count:%d" % len(m), "expected one match over the structure"))
+        # decided on the type-checked body (private helpers spliced in): for every variant and every field of it that holds structures, the field's
+        # value flows into the recursive call — all of it when the field is a list — and the name of a Custom node flows into the set.  However the
+        # traversal is written: one match with a call per arm, `if let` + a helper listing the children, an iterator chain.
+        f = mfc[0]
+        COLL = "TypeCollector::collect_referenced_types_from_structure"
+        sp = [i for i in range(1, f.arg_count + 1) if "TypeStructure" in f.locals[i] and "HashSet" not in f.locals[i]]
+        PARTIAL = {"first", "last", "get", "nth", "take", "skip", "find", "position", "take_while", "skip_while", "step_by", "split_first", "split_last",
+                   "first_chunk", "last_chunk", "pop", "min", "max", "min_by", "max_by", "min_by_key", "max_by_key", "find_map", "any", "all", "next_back", "rev_first"}
+        if len(sp) != 1:
+            r2.bad(V(r2.id, COLL, "collector-signature", "expected one structure parameter"))
         else:
-            covered = set()
-            for arm in m[0]["arms"]:
-                pats = arm["pat"]["cases"] if arm["pat"].get("k") == "or" else [arm["pat"]]
-                if any(p.get("k") in ("wild", "ident") for p in pats):
-                    r2.bad(V(r2.id, "TypeCollector::collect_referenced_types_from_structure", "wildcard-arm", "a wildcard arm hides variants from the collector"))
-                    continue
-                names = []
-                binds = []
-                for p in pats:
-                    path = p.get("path") or p.get("segs") or []
-                    if path:
-                        names.append(path[-1])
-                    binds.append(pat_bindings(p))
-                covered |= set(names)
-                bset = set(b for bs in binds for b in bs)
-                body_calls = [x for x in walk(arm["body"]) if x.get("k") == "call" and expr_text(x["func"]).endswith("collect_referenced_types_from_structure")]
-                passed = set()
-                for x in body_calls:
-                    if x["args"]:
-                        passed.add(expr_text(x["args"][0]).lstrip("&"))
-                loops = {}
-                for x in walk(arm["body"]):
-                    if x.get("k") == "for":
-                        loops[pat_text(x["pat"])] = expr_text(x["iter"]).lstrip("&")
-                for v in list(passed):
-                    if v in loops:
-                        passed.add(loops[v])
-                for nm in names:
-                    if nm in ("Primitive",):
-                        continue
+            def alias_of_param(l, _memo={}):
+                if l not in _memo:
+                    o = f.origin({"l": l})
+                    if o[0] == "proj" and all(x == "deref" for x in o[2]):
+                        o = o[1]            # a reborrow `&*type_structure` handed to a helper
+                    _memo[l] = (l == sp[0]) or (o[0] == "arg" and o[1] == sp[0])
+                return _memo[l]
+
+            def seed_for(vname, fname):
+                def seed(pl):
+                    pr = pl.get("p", [])
+                    if not alias_of_param(pl["l"]):
+                        return False
+                    for i_, p_ in enumerate(pr):
+                        if p_.get("k") == "downcast" and p_.get("variant") == vname and i_ + 1 < len(pr) and pr[i_ + 1].get("k") == "field" \
+                                and str(pr[i_ + 1].get("name", pr[i_ + 1].get("i"))) == fname:
+                            return True
+                    return False
+                return seed
+
+            def recursion_in(c, hot):
+                if short_path(c.best) == COLL and (sp[0] - 1) in hot:
+                    return True
+                # handed to an adapter whose closure recurses (`types.iter().for_each(|t| collect(t, used))`)
+                for a_ in c.args:
+                    o_ = f.origin(a_)
+                    cid_ = o_[1].get("closure") if o_[0] in ("aggr", "const") and isinstance(o_[1], dict) else None
+                    if cid_ in P.fns and any(short_path(c2.best) == COLL for k2 in P.family(cid_) for c2 in P.fns[k2].calls):
+                        return True
+                return False
+            for v in variants:
+                nm = v["name"]
+                for fld in v.get("fields", []):
+                    ty = fld["ty"].replace(" ", "")
                     if nm == "Custom":
-                        ins = [x for x in walk(arm["body"]) if x.get("k") == "mcall" and x["method"] == "insert"]
-                        if ins:
+                        T_, hits = f.forward_taint(seed_for(nm, fld["name"]))
+                        if any(c.name in ("insert", "extend") and "HashSet" in (c.path + " " + (c.self_ty or "")) and any(i_ >= 1 for i_ in hot) for c, hot in hits):
                             r2.ok("Custom(name) inserts the name")
                         else:
-                            r2.bad(V(r2.id, "TypeCollector::collect_referenced_types_from_structure", "custom-not-inserted", "Custom names are not added to the set"))
+                            r2.bad(V(r2.id, COLL, "custom-not-inserted", "Custom names are not added to the set"))
                         continue
-                    miss = bset - passed
-                    if miss:
-                        r2.bad(V(r2.id, "TypeCollector::collect_referenced_types_from_structure", "no-recursion:%s:%s" % (nm, ",".join(sorted(miss))),
-                                 "the %s arm does not recurse into %s" % (nm, sorted(miss))))
+                    if "TypeStructure" not in ty:
+                        continue
+                    T_, hits = f.forward_taint(seed_for(nm, fld["name"]))
+                    rec = any(recursion_in(c, hot) for c, hot in hits)
+                    why = None
+                    if not rec:
+                        why = "does not recurse into"
+                    elif ty.startswith("Vec<"):
+                        part = sorted(set(c.name for c, _ in hits if c.name in PARTIAL))
+                        every = any(c.name in ("iter", "into_iter", "iter_mut", "drain") for c, _ in hits)
+                        if part or not every:
+                            why = "recurses into only part (%s) of" % (",".join(part) or "no iteration")
+                    if why:
+                        r2.bad(V(r2.id, COLL, "no-recursion:%s:%s" % (nm, fld["name"]), "the collector %s %s.%s" % (why, nm, fld["name"])))
                     else:
-                        r2.ok("%s recurses into %s" % (nm, sorted(bset)))
-            for v in variants:
-                if v not in covered:
-                    r2.bad(V(r2.id, "TypeCollector::collect_referenced_types_from_structure", "uncovered-variant:%s" % v, "no arm for TypeStructure::%s" % v))
+                        r2.ok("%s.%s flows into the recursive call" % (nm, fld["name"]))
     r2.require_floor(7, "collector arms")
     rules.append(r2)
 
